@@ -19,6 +19,7 @@ import Upnp.Lemmas.C14Bridge
 import Upnp.Lemmas.C14DevBridge
 import Upnp.Props.C05
 import Upnp.Lemmas.C14Call06
+import Upnp.Lemmas.C14Agree
 import Upnp.Props.C06
 import Upnp.Gen.C08Types
 namespace Upnp.C14
@@ -418,23 +419,46 @@ theorem judge_action_in_mirror (vars : List (C05.VarM F)) (sa : SAct) (m : C05.A
 
 end
 
-/-! ### the call half composed with C06 (request construction) -/
+/-! ### the call half composed with C06 (request construction), codec agreement with C08 -/
+
+theorem rows_out_shapes : ∀ row ∈ Gen.C08Types.rows,
+    (row.ty = .int → row.outK = .strInt) ∧ (row.ty = .str → row.outK = .str)
+    ∧ (row.ty = .bool → row.outK = .ifElse ['1'] ['0']) := by decide
+
+/-- **Codec agreement with C08 (the coercers C06 / C07 use), for every integer, string and boolean row
+    of the generated type table**: the text `C08.coerceUpnp` writes is the text C14's `out` writes —
+    integers (within CPython's 4300-digit `str()` limit; C14's decimal writer is proved equal to
+    C08's, `decOfInt_eq`), a `bool` given for an integer type (`1`/`0`), strings, booleans.  For the
+    float / date / time rows a C14 value carries its canonical text as supplied by the harness; there
+    agreement is the per-value statement `ValAgree` (`O.repr f` / the ISO form is that text). -/
+theorem codec_agreement (O : C06.Oracles) (row : C06.TypeRow) (hrow : row ∈ Gen.C08Types.rows) :
+    (row.ty = .int → (∀ n : Int, (C08.natDigits n.natAbs).length ≤ C08.maxStrDigits → ValAgree O row (.int n) (.int n))
+        ∧ ∀ b, ValAgree O row (.bool b) (.bool b))
+    ∧ (row.ty = .str → ∀ s, ValAgree O row (.str s) (.str s))
+    ∧ (row.ty = .bool → ∀ b, ValAgree O row (.bool b) (.bool b)) := by
+  obtain ⟨h1, h2, h3⟩ := rows_out_shapes row hrow
+  exact ⟨fun h => ⟨fun n hs => agree_int O row (h1 h) n hs, fun b => agree_bool_as_int O row (h1 h) b⟩,
+    fun h s => agree_str O row (h2 h) s, fun h b => agree_bool O row (h3 h) b⟩
 
 /-- **Request half of `call_roundtrip`, with C06's `createRequest` as the client.**  For every
-    request the merged model of `UpnpAction.create_request` (C06: `validate_arguments`,
-    `_format_request_args`, the escape table and `quoteattr` namespace pinned from client.py in
-    `Gen.C06Types`) builds for an action and keyword arguments — under the codec interface `hagree`
-    (C06 renders for each in-argument the text C14's `out` renders; C06 proves its texts decode back,
-    `arg_text_decodes`; both sides are about to share the C08 type model) — the body reads back, by
-    C06's `body_reads_back`, as the envelope `e`; the `SOAPAction` header is the quoted
-    `serviceType#action`; and the C14 server model, given that header and the tree of `e`, accepts
-    the request, validates it and calls the handler with exactly the caller's typed values
-    (`kwOf`).  Names are XML names (`xmlNameOk`), the service type contains none of `# " }`. -/
+    request the merged model of `UpnpAction.create_request` (C06, now on the C08 type model:
+    `validate_arguments` with `C08.mkSchema`, `_format_request_args` with `C08.coerceUpnp`, the escape
+    table and `quoteattr` namespace pinned from client.py in `Gen.C06Types`) builds for an action
+    whose in-arguments are the server action's (`hins`: same names, C06 declarations `decls`) and
+    keyword arguments that agree, argument by argument, with the C14 caller's values (`hval`:
+    `ValAgree` — proved for the integer / string / boolean rows by `codec_agreement`): the body reads
+    back, by C06's `body_reads_back`, as the envelope `e`; the `SOAPAction` header is the quoted
+    `serviceType#action`; and the C14 server model, given that header and the tree of `e`, accepts the
+    request, validates it and calls the handler with exactly the caller's typed values (`kwOf`).
+    Names are XML names (`xmlNameOk`), the service type contains none of `# " }`.
+    (Round 4's hypothesis `hagree` is now derived: `hagree_of_agree`.) -/
 theorem call_request_c06 (O : C06.Oracles) (a : C06.ActionDecl) (kw : C06.Kwargs) (req : C06.Request)
     (hreq : C06.createRequest O Gen.C06Types.escapeExtra Gen.C06Types.nsAttrQuoted a kw = .ok req)
     (fs : Facts) (stype : Str) (sacts : List SAct) (sact : SAct) (args : List (Str × Val))
+    (decls : SArg → C06.VarDecl)
     (ha : a.name = sact.name) (hst : a.serviceType = stype)
-    (hagree : C06.coerceArgs O a.inArgs kw = .ok (sact.ins.map fun x => (x.name, out (argVal args x))))
+    (hins : a.inArgs = sact.ins.map fun x => ⟨x.name, true, decls x⟩)
+    (hval : ∀ x ∈ sact.ins, ∃ w, kw.lookup x.name = some w ∧ ValAgree O (decls x).row (argVal args x) w)
     (hxn : C06.xmlNameOk sact.name = true) (hxa : ∀ x ∈ sact.ins, C06.xmlNameOk x.name = true)
     (hbr : '}' ∉ stype)
     (h1 : '#' ∉ stype) (h2 : '"' ∉ stype) (h3 : '#' ∉ sact.name) (h4 : '"' ∉ sact.name)
@@ -443,8 +467,11 @@ theorem call_request_c06 (O : C06.Oracles) (a : C06.ActionDecl) (kw : C06.Kwargs
     ∃ e, C06.readEnvelope req.body = some e
       ∧ req.headers.lookup "SOAPAction".toList = some ('"' :: stype ++ '#' :: sact.name ++ ['"'])
       ∧ handlerInput fs sacts ⟨some ('"' :: stype ++ '#' :: sact.name ++ ['"']), some (y06 e.tree)⟩
-          = some (sact.name, kwOf args sact) :=
-  c06_request_reaches_handler O a kw req _ _ (fun name st args hn hargs => C06.body_reads_back name st args hn hargs)
+          = some (sact.name, kwOf args sact) := by
+  have hagree : C06.coerceArgs O a.inArgs kw = .ok (sact.ins.map fun x => (x.name, out (argVal args x))) := by
+    rw [hins]; exact hagree_of_agree O decls kw args sact.ins hval
+  exact c06_request_reaches_handler O a kw req _ _
+    (fun name st args hn hargs => C06.body_reads_back name st args hn hargs)
     hreq fs stype sacts sact args ha hst hagree hxn hxa hbr h1 h2 h3 h4 hfind hnd hok
 
 end Upnp.C14
